@@ -986,6 +986,9 @@ func readPhase(t *target, model *rb.List, rng *mon.Rng, seq int, wtrace []wop) {
 			}
 		case 6:
 			w := width(300)
+			if model.Cur%8 == 0 && rng.Chance(1, 3) {
+				w = 8 * rng.Intn(avail/8+1) // whole bytes at a byte boundary
+			}
 			rtrace = append(rtrace, fmt.Sprintf("ReadBits(%d)", w))
 			var got boc.BitString
 			if !guard("ReadBits", wit, func() {
@@ -1000,6 +1003,9 @@ func readPhase(t *target, model *rb.List, rng *mon.Rng, seq int, wtrace []wop) {
 			want, merr := model.Take(w)
 			if (merr != nil) != (err != nil) || (err == nil && !rb.Equal(realBits(&got), want)) {
 				mismatch("ReadBits")
+				return
+			}
+			if err == nil && rng.Bool() && !mutateAndCompare(t, model, rng, &got, "ReadBits", &rtrace, wit) {
 				return
 			}
 		case 7:
@@ -1105,6 +1111,9 @@ func readPhase(t *target, model *rb.List, rng *mon.Rng, seq int, wtrace []wop) {
 				mismatch("ReadRemainingBits")
 				return
 			}
+			if !mutateAndCompare(t, model, rng, &got, "ReadRemainingBits", &rtrace, wit) {
+				return
+			}
 		case 14:
 			// a write in the middle of the reads: the new bits are appended, the read cursor stays, what was
 			// written before still reads the same (overflowing writes are the capacity sections' business)
@@ -1142,6 +1151,14 @@ func readPhase(t *target, model *rb.List, rng *mon.Rng, seq int, wtrace []wop) {
 			if !rb.Equal(realBits(&x), model.Rest()) || t.cell.BitsAvailableForRead() != model.Avail() {
 				mismatch("CopyRemaining")
 				return
+			}
+			// writing to the copy is the copy's business
+			if guard("write to CopyRemaining()", wit, func() { c2.WriteUint(rng.Uint64(), rng.Intn(17)); c2.AddRef(boc.NewCell()) }) {
+				if got := realBits(t.bitString()); !rb.Equal(got, model.B) || t.cell.RefsSize() != 0 {
+					wit["reads"] = append(rtrace, "write to the copy")
+					viol("source-changed-by-write-to-derived@CopyRemaining/"+t.name, wit)
+					return
+				}
 			}
 		}
 		// cursor agreement after every step. A failed read must leave the cursor where it was:
@@ -1447,7 +1464,7 @@ func main() {
 		tier = os.Args[1]
 	}
 	R = mon.Start("C06", tier)
-	R.Rule = "lock-step of boc.BitString/boc.Cell against an ideal []bool model; exhaustive (offset x width x pattern) for ReadUint/PickUint/ReadInt, every offset for byte/bit readers, every big-int width 1..257 x offset 0..7 x boundary values, every writer at every alignment, capacity seams, random write-then-read sequences (with further writes in between the reads) on bare strings, fresh cells and cells parsed from a BOC; random sequences of AddRef/NewRef/NextRef/ResetCounters/CopyRemaining/Refs on built and parsed cells against a slot list with a cursor; Grow and Append beyond the capacity (content, read-back, capacity after Grow); a case is non-trivial when it executed at least one tongo operation whose result was compared with the model; distinct = distinct (operation, length, offset, width, pattern/value) tuples or distinct sequence seeds"
+	R.Rule = "lock-step of boc.BitString/boc.Cell against an ideal []bool model; exhaustive (offset x width x pattern) for ReadUint/PickUint/ReadInt, every offset for byte/bit readers, every big-int width 1..257 x offset 0..7 x boundary values, every writer at every alignment, capacity seams, random write-then-read sequences (with further writes in between the reads) on bare strings, fresh cells and cells parsed from a BOC; random sequences of AddRef/NewRef/NextRef/ResetCounters/CopyRemaining/Refs on built and parsed cells against a slot list with a cursor; Grow and Append beyond the capacity (content, read-back, capacity after Grow); values handed out by ReadBits / ReadRemainingBits / CopyRemaining / Copy are written to (Append, Grow+WriteBit, On/Off) and the source must still hold and read what was written (every offset 0..71 x width 0..72 plus inside the random sequences); a case is non-trivial when it executed at least one tongo operation whose result was compared with the model; distinct = distinct (operation, length, offset, width, pattern/value) tuples or distinct sequence seeds"
 	R.Assume("the ideal model (harness/ref/bits, a []bool and a cursor) is correct")
 	R.Assume("values that do not fit the requested width, negative widths and widths > 64 (> 257 for big ints), zero-width signed/big integers are outside the stated domain and not generated")
 	R.Assume("after an overflowing write only the previously written prefix is compared (the statement promises nothing about the partial tail)")
@@ -1460,6 +1477,7 @@ func main() {
 	sectionCapacity()
 	sectionRefSequences()
 	sectionGrow()
+	sectionMutateDerived()
 	sectionFift()
 	R.Sample(map[string]any{"kind": "exhaustive-read", "example": "len=1023 offset=57 width=57 pattern=random -> ReadUint/PickUint/ReadInt vs model"})
 	os.Exit(R.Finish())
